@@ -3,7 +3,7 @@ from the rng passed in (one PRNG per check, seeded from VERIF_SEED)."""
 import itertools
 
 WORDS = ['a', 'foo', 'bar.', 'GPL-2+', 'x:y', '(c)', '2019', 'é', '漢字', '-', '--', '.', '..', '.x',
-         '*', 'b/c', 'A', 'zz', '1', '~', '+', 'Ünï', '"q"', '#', '{}', '{0}', '%s', '\\n', '[a]', '<b>', 'a=b', 'e\u0301', 'K', '\u2126', '=?utf-9?q?x?=', '=?utf-8?b?a?=', '=?ascii?q?=FF?=', '#x', '#']
+         '*', 'b/c', 'A', 'zz', '1', '~', '+', 'Ünï', '"q"', '#', '{}', '{0}', '%s', '\\n', '[a]', '<b>', 'a=b', 'e\u0301', 'K', '\u2126', '=?utf-9?q?x?=', '=?utf-8?b?a?=', '=?ascii?q?=FF?=', '#x', '#', '//x', '//example.org/a', 'http://x/y', '/usr', 'a%3ab', '%3a', 'b:any']
 TERMS = ['\n'] * 12 + ['\r\n', '\r', '\n', '\n']
 ODD_BREAKS = ['\x0b', '\x0c', '\x1c', '\x1d', '\x1e', '\x85', '\u2028', '\u2029']
 ODD_SPACES = ['\x1f', '\xa0', '\u1680', '\u2000', '\u2009', '\u202f', '\u205f', '\u3000']
@@ -16,7 +16,19 @@ def all_strings(alphabet, maxlen):
 
 
 def words_line(rng, lo=1, hi=4):
+    if hi == 4 and rng.random() < .02:
+        return long_line(rng)
     return ' '.join(rng.choice(WORDS) for _ in range(rng.randint(lo, hi)))
+
+
+def long_line(rng):
+    """a line beyond every usual display width (80, 100, 120, 255 characters), with and without blanks to fold at"""
+    k = rng.random()
+    if k < .6:
+        return ' '.join(rng.choice(WORDS) for _ in range(rng.randint(25, 90)))
+    if k < .8:
+        return ''.join(rng.choice('abcXYZ019-+.') for _ in range(rng.randint(80, 300)))
+    return 'x' * rng.choice([79, 80, 81, 255, 256, 1000]) + ' ' + rng.choice(WORDS)
 
 
 def value_line(rng):
@@ -124,7 +136,13 @@ def control_line(rng):
     return words_line(rng) + rng.choice(ODD_BREAKS) + words_line(rng)
 
 
+INVISIBLE = ['\ufeff', '\u200b', '\u2060', '\ufffe', '\x00', '\u200e', '\xad']
+
+
 def control_text(rng, maxlines=14, mixed_terms=0.15):
+    if rng.random() < .03:
+        # an encoding signature or another invisible character in front of the first line
+        return rng.choice(INVISIBLE) + control_text(rng, maxlines, mixed_terms)
     n = rng.randint(0, maxlines)
     mixed = rng.random() < mixed_terms
     term = rng.choice(['\n', '\n', '\n', '\r\n', '\r'])
@@ -159,3 +177,26 @@ def corrupt_doc(rng, text):
         else:
             ls[i] = ls[i].lstrip() if ls[i][:1] in ' \t' else ' ' + ls[i]
     return '\n'.join(ls)
+
+
+def big_text(rng, nlines, period=2, phase=0, term='\n'):
+    """a large text of about nlines lines in which structure is dense and periodic, so that whatever
+    block, page or buffer size an implementation uses, some boundary falls on each kind of line:
+    paragraphs of short fields with continuation lines and blank-line markers every `period` lines,
+    separated by one to three blank (or white-space-only) lines"""
+    out = []
+    i = 0
+    while len(out) < nlines:
+        if phase:
+            out.append('Comment: c%d' % i)
+            phase -= 1
+            continue
+        out.append(rng.choice(['License', 'Comment', 'X-Note', 'Files']) + ': v%d' % i)
+        for j in range(rng.randint(1, 30)):
+            out.append(' .' if j % period == period - 1 else ' line %d %s' % (j, rng.choice(WORDS)))
+        if out[-1] == ' .':
+            out.append(' end')
+        if rng.random() < .4:
+            out += rng.choice([[''], ['', ''], ['', ' '], ['', '', ''], [' ', '']])
+        i += 1
+    return term.join(out) + term
